@@ -214,13 +214,14 @@ fn io_step<const N: usize, I: Io, S: Src>(io: &mut I, m: &mut BModel, s: &mut S,
             let d = s.usize();
             s.assume(d <= N + 2);
             let mut dst = [0xA5u8; CAP];
+            s.assume(d <= CAP);
             let r = io.io_read(&mut dst[..d]);
             let expect = if d < m.len { d } else { m.len };
             cov!(d > m.len, "read with a destination longer than the contents");
             cov!(d > 0 && d < m.len, "read of part of the contents");
             chk!(r == Some(expect), "read returns min(destination length, buffered length)");
             let mut i = 0;
-            while i < CAP {
+            while i < N + 3 && i < CAP {
                 if i < expect {
                     chk!(dst[i] == m.a[i], "read delivers the front bytes in order");
                 } else {
@@ -270,10 +271,10 @@ fn io_step<const N: usize, I: Io, S: Src>(io: &mut I, m: &mut BModel, s: &mut S,
     }
 }
 
-fn src_bytes<S: Src>(s: &mut S) -> [u8; CAP] {
+fn src_bytes<const N: usize, S: Src>(s: &mut S) -> [u8; CAP] {
     let mut a = [0u8; CAP];
     let mut i = 0;
-    while i < CAP {
+    while i < 2 * N + 1 && i < CAP {
         a[i] = s.u8();
         i += 1;
     }
@@ -285,7 +286,7 @@ fn src_bytes<S: Src>(s: &mut S) -> [u8; CAP] {
 pub fn io_std<const N: usize, const STEPS: usize, const P: u32, S: Src>(s: &mut S) {
     let BSt { mut buf, mut m, rot } = build_u8::<N, S>(s);
     cov!(rot + m.len > N, "io on wrapped contents");
-    let src = src_bytes(s);
+    let src = src_bytes::<N, S>(s);
     let mut k = 0;
     while k < STEPS {
         {
@@ -301,7 +302,7 @@ pub fn io_std<const N: usize, const STEPS: usize, const P: u32, S: Src>(s: &mut 
 pub fn io_eio<const N: usize, const STEPS: usize, const P: u32, S: Src>(s: &mut S) {
     let BSt { mut buf, mut m, rot } = build_u8::<N, S>(s);
     cov!(rot + m.len > N, "io on wrapped contents");
-    let src = src_bytes(s);
+    let src = src_bytes::<N, S>(s);
     let mut k = 0;
     while k < STEPS {
         {
@@ -317,7 +318,7 @@ pub fn io_eio<const N: usize, const STEPS: usize, const P: u32, S: Src>(s: &mut 
 pub fn io_eio_async<const N: usize, const STEPS: usize, const P: u32, S: Src>(s: &mut S) {
     let BSt { mut buf, mut m, rot } = build_u8::<N, S>(s);
     cov!(rot + m.len > N, "io on wrapped contents");
-    let src = src_bytes(s);
+    let src = src_bytes::<N, S>(s);
     let mut k = 0;
     while k < STEPS {
         {
@@ -348,7 +349,7 @@ pub fn io_pair_eio<const N: usize, const P: u32, S: Src>(s: &mut S) {
         b.push_back(m.a[i]);
         i += 1;
     }
-    let src = src_bytes(s);
+    let src = src_bytes::<N, S>(s);
     let op = s.u8();
     s.assume(op < 4);
     let x = s.usize();
@@ -367,7 +368,7 @@ pub fn io_pair_eio<const N: usize, const P: u32, S: Src>(s: &mut S) {
             let r2 = EIo(&mut b).io_read(&mut d2[..x]);
             chk!(r1 == r2, "embedded read returns the same count as std::io read");
             let mut i = 0;
-            while i < CAP {
+            while i < N + 3 && i < CAP {
                 chk!(d1[i] == d2[i], "embedded read delivers the same bytes as std::io read");
                 i += 1;
             }
